@@ -93,9 +93,10 @@ def job_a(j):
         lst.sort(key=lambda x: (sum(1 for c in x[0] if c), len(x[0])))
         choices, cause, script, conns = lst[0]
         o2 = run_a(cfg, Ctx(choices), letters, conn)
-        if not any(c == clause for c, _ in judge(o2)):
-            raise RuntimeError(f'non-deterministic failure {cfg} {choices}')
         fl = sorted({x for x in script if x not in ('valid', 'drop')} | {x for x in conns if x != 'ok'})
+        if not any(c == clause for c, _ in judge(o2)):
+            fl = ['order-dependent']
+            cause = f'{cause}; ' + 'failed during exploration but not on a fresh replay: the outcome depends on earlier executions in the same process (state outside the objects under test leaks between executions)'
         key = f"{clause}/{cfg['transport']}/ka={int(cfg['ka'])}/{'+'.join(fl) or 'drop'}/{c0}"
         out.append(dict(key=key, clause=clause, n=len(lst),
                         replay=dict(part='a', cfg=cfg, choices=choices, letters=letters, conn=conn),
